@@ -183,6 +183,7 @@ static void write_setfile_version(rng_t *r)
 	if (rndp(r, 250)) fprintf(f, "never-existed.mtbl\n");
 	if (rndp(r, 250)) fprintf(f, "%s\n", rndp(r, 500) ? "junk.bin" : G.junk);
 	if (rndp(r, 150)) fprintf(f, "\n");                       /* a blank line resolves to the setfile's directory: exists, is not a table */
+	if (rndp(r, 250)) { long sz = ftell(f); if (sz > 0) { fflush(f); if (ftruncate(fileno(f), sz - 1) == 0) STAT("actions.setfile_without_final_newline"); } }
 	fclose(f);
 	G.setver++;
 	static long cur_mtime;
@@ -236,7 +237,7 @@ static struct mtbl_fileset_options *handle_opts(rng_t *r, handle_t *h)
 	h->interval = PICK(r, IV);
 	mtbl_fileset_options_set_reload_interval(fo, h->interval);
 	h->mode = rndn(r, 4) == 0;
-	if (h->mode == 0) mtbl_fileset_options_set_merge_func(fo, ms_merge_cb, &h->mc); else mtbl_fileset_options_set_dupsort_func(fo, dupsort_bytes, NULL);
+	if (h->mode == 0) mtbl_fileset_options_set_merge_func(fo, ms_merge_cb, &h->mc); else mtbl_fileset_options_set_dupsort_func(fo, dupsort_bytes, DUPSORT_CLOS);
 	h->fname_mask = rndn(r, 3) == 0 ? (1 + rndn(r, 62)) : 0;
 	if (h->fname_mask) mtbl_fileset_options_set_filename_filter_func(fo, fname_filter, h);
 	h->rf_kind = rndn(r, 4) == 0 ? 1 + rndn(r, 2) : 0; h->rf_thr = rndn(r, (uint32_t)G.universe.n / 2 + 1);
@@ -267,7 +268,7 @@ static void case_c07(const args_t *a, long c, rng_t *r)
 	gen_model(r, &sh, 8 + rndn(r, 60), rndp(r, 300), &G.universe); shape_free(&sh);
 	for (int d = 0; d < NF; d++) { snprintf(G.disk[d].path, sizeof G.disk[d].path, "%s/f%d.mtbl", G.dir, d); if (rndp(r, 700)) write_table_file(r, d); }
 	write_setfile_version(r);
-	G.vnow.tv_sec = 1000 + rndn(r, 50); G.vnow.tv_nsec = rndn(r, 1000);
+	{ static const long T0[] = {0, 0, 1, 4, 30, 59, 1000, 86400}; G.vnow.tv_sec = PICK(r, T0) + (long)rndn(r, 2); G.vnow.tv_nsec = rndn(r, 1000); }   /* also a process started right after boot */
 	G.forced_pending = 1;          /* a fresh fileset must load on its first source operation */
 	G.active = 1;
 	/* original handle */
@@ -368,6 +369,7 @@ static void case_c07(const args_t *a, long c, rng_t *r)
 	for (int i = 0; i < MAXIT; i++) if (IT[i].live) { miter_drain(&IT[i].mi, "final-drain"); G.open_iters--; H[IT[i].h].open_iters--; miter_close(&IT[i].mi); model_free(&IT[i].snap); bspec_free(&IT[i].bs); IT[i].live = 0; }
 	for (int k = 0; k < MAXH * 3; k++) { int i = rndn(r, MAXH); if (H[i].live) { if (H[i].mc.operand_errors) viol("C07/merge-callback-got-foreign-or-stale-operand", "bad merge operands"); mtbl_fileset_destroy(&H[i].f); H[i].live = 0; } }
 	for (int i = 0; i < MAXH; i++) if (H[i].live) { mtbl_fileset_destroy(&H[i].f); H[i].live = 0; }
+	if (g_dupsort_wrong_clos) { viol("C07/dupsort-called-with-wrong-closure", "dupsort got a foreign closure %" PRIu64 " times", g_dupsort_wrong_clos); g_dupsort_wrong_clos = 0; }
 	G.active = 0;
 	stat_add("events.reload_attempts", G.attempts);
 	statf(1, "histories.max_handles.%d", max_handles);
